@@ -54,6 +54,11 @@ func (packet *Packet) ReadFrom(ctx context.Context, reader io.Reader, timeout ti
 
 	totalBytes += n
 
+	if packet.Header.Length < PacketHeaderSize {
+		return totalBytes, fmt.Errorf("invalid packet length %d in header, expected at least %d",
+			packet.Header.Length, PacketHeaderSize)
+	}
+
 	packet.Data = make([]byte, packet.Header.Length-PacketHeaderSize)
 
 	// The timeout will be refreshed (replaced) on every successful
